@@ -1,4 +1,5 @@
 import PhysisModel.Base.Fs
+import PhysisModel.Model.Utf8Lossy
 /-!
 # Model of `src/patch.rs` (`ZiPatch::apply`, `ZiPatch::create`) and of
 `read_data_block_patch` / `write_data_block_patch` in `src/sqpack/mod.rs`
@@ -48,13 +49,14 @@ def rdN (n : Nat) (s : Bytes) : Option (Bytes × Bytes) :=
 def rdMagic (m : Bytes) (s : Bytes) : Option Bytes :=
   if s.take m.length = m then some (s.drop m.length) else none
 
-/-- `read_string`: `String::from_utf8(..).unwrap()` then `trim_matches('\0')` (both ends).
-Only ASCII is modelled (C03/C04 quantify over ASCII names); anything else is reported as a panic
-although the code accepts other valid UTF-8. -/
+/-- `read_string`: `String::from_utf8_lossy(..)` then `trim_matches('\0')` (both ends) — lossy
+since fix a103be4 (an invalid sequence becomes U+FFFD; it was `from_utf8(..).unwrap()`).  The ASCII
+branch (C03/C04 quantify over ASCII names) is kept apart so that the theorems about ASCII names
+read as before; on ASCII the lossy decoding is the identity (`Utf8Lossy.fromUtf8Lossy_valid`). -/
 def trimNul (s : Bytes) : Bytes :=
   ((s.dropWhile (· = 0)).reverse.dropWhile (· = 0)).reverse
 def readString (s : Bytes) : Option Bytes :=
-  if s.all (· < 128) then some (trimNul s) else none
+  if s.all (· < 128) then some (trimNul s) else some (trimNul (Utf8Lossy.fromUtf8Lossy s))
 
 /-! ## chunks, as far as `apply` looks at them -/
 
